@@ -8,7 +8,7 @@ import random
 
 import numpy as np
 
-from . import record
+from . import record, common
 from . import pool as P
 
 
@@ -161,7 +161,7 @@ def record_routines(seed, nrounds):
                 events.append(dict(op='NewOpaque', obs=obsv.observe(objs), **dims_of(a)))
             ev = dict(op='Routine', name=name, args=list(range(1, len(args) + 1)))
             try:
-                with contextlib.redirect_stdout(io.StringIO()):
+                with contextlib.redirect_stdout(io.StringIO()), common.watchdog():
                     res = thunk()
             except Exception as e:
                 ev['raised'] = '%s: %s' % (type(e).__name__, e)
@@ -195,7 +195,8 @@ def record_routines(seed, nrounds):
                                 dict(op='OrthoTrunc', a=k + 1, which='both', maxrank=1)]
                 e2 = choices[(opshift + k) % len(choices)]
                 try:
-                    record.perform(tt_mod, objs, e2)
+                    with common.watchdog():
+                        record.perform(tt_mod, objs, e2)
                 except Exception as e:
                     e2['raised'] = '%s: %s' % (type(e).__name__, e)
                     events.append(e2)
